@@ -30,6 +30,33 @@ type frameSpec struct {
 	Rows        [][]int64 `json:"rows"`                // per entry of Groups: the index timestamps written
 	FreeLens    []int     `json:"free_lens,omitempty"` // per entry of sessionSpec.Free: series length (0 = absent)
 	CommitAfter bool      `json:"commit_after,omitempty"`
+	Build       buildSpec `json:"build"`
+}
+
+// buildSpec says how the frame object handed to Write is assembled. What the frame MEANS
+// (Groups/Rows/FreeLens above) is the same in every mode; the modes differ in what else
+// sits in the frame's raw key/series slices behind the exclusion mask.
+//
+//	plain            only the intended series, appended one by one
+//	keep             wide frame (intended + decoys), narrowed with KeepKeys(intended keys)
+//	exclude          wide frame, narrowed with ExcludeKeys(decoy keys)
+//	exclude-keep     ExcludeKeys(some decoys) then KeepKeys(intended keys)
+//	keep-exclude     KeepKeys(intended + some decoys) then ExcludeKeys(those decoys)
+//	masked-append    decoy occurrences of the intended keys (and the decoys) all masked out,
+//	                 then the intended series appended: repeated keys, first occurrence masked
+//	extend           two narrowed frames joined with Extend
+//	huge             as keep, but with the decoys repeated to >= 128 raw series (KeepKeys then
+//	                 copies instead of masking)
+//
+// Decoy series carry rows that the session never writes: if a leaseholder stores one, its
+// engine holds samples the single-node store given the same frame does not.
+type buildSpec struct {
+	Mode               string `json:"mode"`
+	DecoySessionGroups []int  `json:"decoy_session_groups,omitempty"` // indices into sessionSpec.Groups: in the writer, not in this frame
+	DecoyOtherGroups   []int  `json:"decoy_other_groups,omitempty"`   // indices into caseSpec.Groups: not in the writer at all
+	DecoyFree          []int  `json:"decoy_free,omitempty"`           // indices into caseSpec.Free
+	DecoyRows          int    `json:"decoy_rows,omitempty"`
+	DecoyFirst         bool   `json:"decoy_first,omitempty"`
 }
 
 type sessionSpec struct {
@@ -89,12 +116,10 @@ var (
 const (
 	windowWidth = int64(1_000_000_000)
 	maxIncr     = 1_000_000
+	minIncr     = 10 // rows of a group are at least this far apart; decoy rows sit in the gaps
 )
 
-// partialSyncFrameOdds: one in this many frames of a sync session may leave out some of the
-// session's groups (each one that leaves out a peer costs a watchdog period and an
-// abandoned cluster). Set from the tier in main.
-var partialSyncFrameOdds = 8
+
 
 func genCase(r *prng.R, c int) caseSpec {
 	cs := caseSpec{}
@@ -159,7 +184,7 @@ func genCase(r *prng.R, c int) caseSpec {
 			for i := range ss.Groups {
 				rows := make([]int64, r.Range(1, 4))
 				for j := range rows {
-					cursor[i] += int64(r.Range(1, maxIncr))
+					cursor[i] += int64(r.Range(minIncr, maxIncr))
 					rows[j] = ss.Start + cursor[i]
 				}
 				fs.Groups = append(fs.Groups, i)
@@ -241,26 +266,22 @@ func genSession(r *prng.R, cs caseSpec, window int) sessionSpec {
 	for i := range cursor {
 		cursor[i] = ss.Start
 		if r.Bool() {
-			cursor[i] += int64(r.Range(1, maxIncr))
+			cursor[i] += int64(r.Range(minIncr, maxIncr))
 		}
 	}
 	nFrames := r.Range(1, 6)
 	for f := 0; f < nFrames; f++ {
 		fs := frameSpec{}
-		// A frame may cover any subset of the session's groups (legal on a single-node
-		// store). In sync mode most frames cover every group: a sync Write whose frame
-		// leaves out a peer leaseholder was observed never to return, and each such call
-		// costs a full watchdog period.
-		full := ss.Sync && !r.Chance(1, partialSyncFrameOdds)
+		// A frame may cover any subset of the session's groups (legal on a single-node store).
 		for i := range ss.Groups {
-			if !full && !r.Chance(3, 4) {
+			if !r.Chance(3, 4) {
 				continue
 			}
 			n := r.Range(1, 5)
 			rows := make([]int64, n)
 			for k := range rows {
 				rows[k] = cursor[i]
-				cursor[i] += int64(r.Range(1, maxIncr))
+				cursor[i] += int64(r.Range(minIncr, maxIncr))
 			}
 			fs.Groups = append(fs.Groups, i)
 			fs.Rows = append(fs.Rows, rows)
@@ -275,9 +296,56 @@ func genSession(r *prng.R, cs caseSpec, window int) sessionSpec {
 		if !ss.AutoCommit && r.Chance(1, 3) {
 			fs.CommitAfter = true
 		}
+		fs.Build = genBuild(r, cs, ss, fs)
 		ss.Frames = append(ss.Frames, fs)
 	}
 	return ss
+}
+
+// genBuild picks how the frame object is assembled (see buildSpec).
+func genBuild(r *prng.R, cs caseSpec, ss sessionSpec, fs frameSpec) buildSpec {
+	b := buildSpec{Mode: "plain", DecoyRows: r.Range(1, 3), DecoyFirst: r.Bool()}
+	if r.Chance(2, 5) {
+		return b
+	}
+	inFrame := map[int]bool{}
+	for _, gi := range fs.Groups {
+		inFrame[gi] = true
+	}
+	inSession := map[int]bool{}
+	for i, g := range ss.Groups {
+		inSession[g] = true
+		// a whole group of the writer that this frame leaves out (often a whole leaseholder)
+		if !inFrame[i] && r.Chance(3, 4) {
+			b.DecoySessionGroups = append(b.DecoySessionGroups, i)
+		}
+	}
+	for g := range cs.Groups {
+		if !inSession[g] && r.Chance(1, 2) {
+			b.DecoyOtherGroups = append(b.DecoyOtherGroups, g)
+		}
+	}
+	intendedFree := map[int]bool{}
+	for i, n := range fs.FreeLens {
+		if n > 0 {
+			intendedFree[ss.Free[i]] = true
+		}
+	}
+	for f := range cs.Free {
+		if !intendedFree[f] && r.Chance(1, 2) {
+			b.DecoyFree = append(b.DecoyFree, f)
+		}
+	}
+	hasDecoys := len(b.DecoySessionGroups)+len(b.DecoyOtherGroups)+len(b.DecoyFree) > 0
+	modes := []string{"masked-append"}
+	if hasDecoys {
+		modes = []string{"keep", "keep", "exclude", "exclude", "exclude-keep", "keep-exclude", "masked-append", "extend", "extend"}
+		if r.Chance(1, 25) {
+			modes = []string{"huge"}
+		}
+	}
+	b.Mode = prng.Pick(r, modes)
+	return b
 }
 
 // timestampsUpTo lists every index timestamp the regular sessions 0..upTo write (used to
@@ -330,15 +398,7 @@ func genIter(r *prng.R, cs caseSpec, after int) iterSpec {
 	spans := []int64{1, 1000, maxIncr, 3 * maxIncr, windowWidth, 20 * windowWidth}
 	seeks := []string{"seek-first", "seek-last", "seek-ge", "seek-le"}
 	it.Cmds = append(it.Cmds, iterCmd{Op: prng.Pick(r, seeks), Arg: pickT()})
-	// Auto-span (chunked) moves are only issued in the two shapes cesium's own suite
-	// exercises: SeekFirst followed by a run of Next(AutoSpan), and SeekLast followed by a
-	// run of Prev(AutoSpan), on unbounded iterators. Outside of these shapes the plain
-	// single-node cesium iterator was observed to recurse without bound in
-	// unary.Iterator.autoNext/autoPrev (fatal stack overflow of the whole process after
-	// some tens of seconds) - a matter for the cesium iterator property, and fatal for this
-	// process, which hosts every node.
-	unbounded := it.Lo == int64(telem.TimeStampMin) && it.Hi == int64(telem.TimeStampMax)
-	for i := 0; i < r.Range(4, 12); i++ {
+	for i := 0; i < r.Range(5, 18); i++ {
 		switch x := r.Intn(100); {
 		case x < 12:
 			it.Cmds = append(it.Cmds, iterCmd{Op: prng.Pick(r, seeks), Arg: pickT()})
@@ -346,19 +406,10 @@ func genIter(r *prng.R, cs caseSpec, after int) iterSpec {
 			it.Cmds = append(it.Cmds, iterCmd{Op: "next", Arg: prng.Pick(r, spans)})
 		case x < 55:
 			it.Cmds = append(it.Cmds, iterCmd{Op: "prev", Arg: prng.Pick(r, spans)})
+		case x < 80:
+			it.Cmds = append(it.Cmds, iterCmd{Op: "next-auto"})
 		case x < 92:
-			if !unbounded {
-				it.Cmds = append(it.Cmds, iterCmd{Op: "next", Arg: prng.Pick(r, spans)})
-				continue
-			}
-			seek, move := "seek-first", "next-auto"
-			if x >= 78 {
-				seek, move = "seek-last", "prev-auto"
-			}
-			it.Cmds = append(it.Cmds, iterCmd{Op: seek})
-			for j := 0; j < r.Range(1, 6); j++ {
-				it.Cmds = append(it.Cmds, iterCmd{Op: move})
-			}
+			it.Cmds = append(it.Cmds, iterCmd{Op: "prev-auto"})
 		default:
 			it.Cmds = append(it.Cmds, iterCmd{Op: "valid"})
 		}
@@ -385,7 +436,7 @@ func (cs caseSpec) shape() string {
 			for _, rows := range f.Rows {
 				fmt.Fprintf(&b, "x%d", len(rows))
 			}
-			fmt.Fprintf(&b, "%v%v;", f.FreeLens, f.CommitAfter)
+			fmt.Fprintf(&b, "%v%v %s d%v/%v/%v;", f.FreeLens, f.CommitAfter, f.Build.Mode, f.Build.DecoySessionGroups, f.Build.DecoyOtherGroups, f.Build.DecoyFree)
 		}
 		b.WriteString("|")
 	}
